@@ -63,6 +63,7 @@ std::string propCounter(const FmmCase& c){
     typename Counting::ReduceType merged;
     long nbKernels = 0, nbKernelsUsed = 0;
     std::string counterErr; long modelM2L = 0, modelP2P = 0;
+    bool changedWorkers = false;
     {
         std::unique_ptr<Algo> a; if(c.lstop == -100) a.reset(new Algo(config, Counting(&ctxB))); else a.reset(new Algo(config, Counting(&ctxB), long(c.lstop)));
         // model counts per operator and execution
@@ -101,7 +102,13 @@ std::string propCounter(const FmmCase& c){
         for(int e = 0 ; e < nbExec && counterErr.empty() ; ++e){
             for(size_t ic = 0 ; ic < calls.size() && counterErr.empty() ; ++ic){
                 std::vector<uint32_t> s2 = c.sched; if(!s2.empty()) s2.push_back(uint32_t(e) * 40503u + uint32_t(ic) * 977u);
-                msched::global().reset(c.threads, s2);
+                // worker count of this execution: the first execution uses c.threads; when c.threadsCtor is set the later executions run
+                // with that many workers. Generated cases only lower the count (variant 99 = probe of the known finding F-COUNTER-GROWTH:
+                // raising the count between two executions clones kernel 0 together with its accumulated counters)
+                int workers = c.threads;
+                if(e >= 1 && c.threadsCtor > 0) workers = (c.variant == 99) ? c.threadsCtor : std::min(c.threadsCtor, c.threads);
+                if(workers != c.threads) changedWorkers = true;
+                msched::global().reset(workers, s2);
                 a->execute(*treeB, calls[ic]);
                 for(int b = 0 ; b < 6 ; ++b) if(calls[ic] & (1 << b)) times[b] += 1;
                 // the counters are read between the calls: each operator counter = (times its flag was requested) x (model count)
@@ -129,6 +136,7 @@ std::string propCounter(const FmmCase& c){
     const long eM2L = modelM2L, eP2P = modelP2P;
     st.cls("executes=" + std::to_string(nbExec));
     if(calls.size() > 1) st.cls("staged-history (counters read between the calls)");
+    if(changedWorkers) st.cls("worker-count-lowered-between-executions");
     st.cls("kernel-copies", nbKernels);
     if(nbKernelsUsed >= 2) st.cls("counts-spread-over>=2-kernel-copies");
     const bool nontrivial = (RT == 1) ? (nbKernelsUsed >= 2) : (eM2L > 0 && eP2P > 0);
@@ -145,7 +153,7 @@ int main(int argc, char** argv){
     static const int hmax[5] = {0, 8, 6, 5, 4};
     g.maxH = int(a.getInt("maxh", hmax[Dim])); g.maxN = int(a.getInt("maxn", 150));
 #if RT == 1
-    g.schedules = true; g.executors = 2; g.varyThreads = false;   // C18 quantifies over a constant worker count
+    g.schedules = true; g.executors = 2; g.varyThreads = true;    // threadsCtor = worker count of the executions after the first (only lowered, see propCounter)
 #endif
     return hc::runMain(a, g, [&](const FmmCase& c){ return propCounter(c); });
 }
